@@ -143,6 +143,9 @@ type Store[K comparable, V any] struct {
 	cancel            context.CancelFunc
 	maintenanceTicker *time.Ticker
 	waitChan          chan bool
+	// serializes Wait callers: waitChan carries one anonymous wake-up per batch,
+	// so at most one WAIT marker may be in flight at a time.
+	waitMu sync.Mutex
 }
 
 type StoreOptions[K comparable, V any] struct {
@@ -938,6 +941,8 @@ func (s *Store[K, V]) processSecondary() {
 
 // Wait blocks until the write channel is drained.
 func (s *Store[K, V]) Wait() {
+	s.waitMu.Lock()
+	defer s.waitMu.Unlock()
 	s.writeChan <- WriteBufItem[K, V]{code: WAIT}
 	<-s.waitChan
 }
